@@ -455,6 +455,10 @@ fn main() {
         }
     }
 
+    // wall-clock budget for the generated part of the campaign (0 = none): the quick tier must stay quick even when every
+    // case is slow (long inputs, shrinking); the report says how many cases actually ran
+    let max_secs: u64 = opt.get("max-secs").map(|s| s.parse().unwrap()).unwrap_or(0);
+    let t_start = std::time::Instant::now();
     let mut idx = 0u64;
     let mut todo_iter = todo.into_iter();
     loop {
@@ -462,7 +466,7 @@ fn main() {
             t
         } else if exhaustive {
             break;
-        } else if idx < n {
+        } else if idx < n && !(max_secs > 0 && t_start.elapsed().as_secs() >= max_secs) {
             idx += 1;
             let c = if extra::is_extra(&campaign) { extra::gen_case(&campaign, &mut rng) } else { campaigns::gen_case(&campaign, &mut rng) };
             (c, false)
@@ -490,7 +494,7 @@ fn main() {
         *counts.entry(kind.split(' ').next().unwrap().to_string()).or_insert(0) += 1;
         if kind != "ok" {
             if failures.len() < 20 {
-                let (sc, sreq, sresp) = if kind == "bad" { (case.clone(), req.clone(), resp.clone()) } else { shrink(&mut drv, &case, &kind, if failures.len() < 4 { 12 } else { 2 }) };
+                let (sc, sreq, sresp) = if kind == "bad" { (case.clone(), req.clone(), resp.clone()) } else { shrink(&mut drv, &case, &kind, if failures.len() < 3 { 8 } else { 1 }) };
                 failures.push(serde_json::json!({
                     "kind": kind.split(' ').next().unwrap(),
                     "campaign": campaign,
